@@ -368,7 +368,7 @@ bool Directory::copy(const String& from, const String& to)
 	int n=0;
 	do {
 		n = src.read(buffer, sizeof(buffer));
-		if( n < 0)
+		if(n < 0 || src.error()) // a read error is not the end of the file (fread never returns < 0)
 			return false;
 		int m = dst.write(buffer, n);
 		if( m != n)
